@@ -195,10 +195,11 @@ func (a *An) c10KDF(rule string) {
 			R.Check(ok, rule, v+"."+m, m+" is "+callee+" of the whole input", a.C.Pos(f.Pos()), "hash function differs")
 		}
 	}
-	for name, want := range map[string]string{"gt": "((*math/big.Int).Cmp($l, $r) == 1)"} {
+	for name, want := range map[string]string{"gt": "gt"} {
 		if fn := a.MustFn(name); fn != nil {
 			for _, r := range a.returnsOf(fn) {
-				a.TermIs(rule, name+"|definition", "numeric comparison of the public keys", r, r.Results[0], want)
+				got := strings.Join(a.gateTerms(r.Results[0], true, 0), " & ")
+				a.R.Check(got == "cmp[(*math/big.Int).Cmp($l, $r)] "+want, rule, name+"|definition", "numeric comparison of the public keys", a.C.InstrPos(r), "it decides "+got)
 			}
 		}
 	}
@@ -437,20 +438,18 @@ func (a *An) c10SMPIndices(rule string) {
 			continue
 		}
 		var got []string
-		for _, b := range f.Blocks {
-			for _, in := range b.Instrs {
-				c, ok := in.(*ssa.Call)
-				if !ok {
-					continue
-				}
-				switch a.F.callName(c) {
-				case "generateZKP":
-					got = append(got, "generateZKP:"+a.C.Term(c.Call.Args[2]))
-				case "hashMPIsBN":
-					got = append(got, "hashMPIsBN:"+a.C.Term(c.Call.Args[1]))
-				}
+		a.walkWithHelpers(f, 0, func(in ssa.Instruction) {
+			c, ok := in.(*ssa.Call)
+			if !ok {
+				return
 			}
-		}
+			switch a.F.callName(c) {
+			case "generateZKP":
+				got = append(got, "generateZKP:"+a.C.Term(c.Call.Args[2]))
+			case "hashMPIsBN":
+				got = append(got, "hashMPIsBN:"+a.C.Term(c.Call.Args[1]))
+			}
+		})
 		R.Check(strings.Join(got, ",") == strings.Join(w, ","), rule, name, "proof hash indices "+strings.Join(w, ","), a.C.Pos(f.Pos()), strings.Join(got, ","))
 	}
 	if f := a.MustFn("hashMPIs"); f != nil {
